@@ -60,6 +60,7 @@ def scalar_task(states):
 
     torch.set_num_threads(1)
     from nflows.transforms import nonlinearities as NL
+    from nflows.transforms import base as TB
     from nflows.transforms.base import InputOutsideDomain
 
     objs = {
@@ -71,6 +72,14 @@ def scalar_task(states):
         t, cls = st["tr"], str(st["cls"])
         name = str(t["name"])
         obj, meth = objs[name]
+        mode, via = str(st["mode"]), str(st["via"])
+        obj.train(mode == "train")
+        if via == "composite":
+            obj = TB.CompositeTransform([obj])
+        elif via == "inverse":
+            obj, meth = TB.InverseTransform(obj), ("forward" if meth == "inverse" else "inverse")
+        if via != "direct":
+            obj.train(mode == "train")
         for dtn in ("float32", "float64"):
             dt = getattr(torch, dtn)
             v = concrete(torch, t, cls, dt)
@@ -79,7 +88,7 @@ def scalar_task(states):
             x = torch.full((rows, 3), inside, dtype=dt)
             x.view(-1)[int(st["pos"]) - 1 + (rows - 1) * 3 * (1 if int(st["pos"]) == 3 else 0) * 0] = v
             out["n"] += 1
-            case = {"kind": "scalar", "transform": name, "cls": cls, "value": repr(v), "dtype": dtn, "batch": rows, "pos": int(st["pos"])}
+            case = {"kind": "scalar", "transform": name, "cls": cls, "value": repr(v), "dtype": dtn, "batch": rows, "pos": int(st["pos"]), "mode": mode, "via": via}
             try:
                 y, lad = getattr(obj, meth)(x)
                 got = "Value"
@@ -98,7 +107,7 @@ def scalar_task(states):
                 want = "Value" if bool(t["hiClosed"]) else "InputOutsideDomain"
             if got != want:
                 clause = "out_of_domain_accepted" if want == "InputOutsideDomain" and got == "Value" else "in_domain_rejected" if got == "InputOutsideDomain" else "wrong_error"
-                out["fails"].append(dict(case, clause=clause, detail="%s on %s (%s, %s, batch of %d rows): %s, specified %s" % (name, repr(stored), cls, dtn, rows, got[:120], want)))
+                out["fails"].append(dict(case, clause=clause, detail="%s on %s (%s, %s, batch of %d rows, %s mode, called %s): %s, specified %s" % (name, repr(stored), cls, dtn, rows, mode, via, got[:120], want)))
             elif got == "Value" and not bool(torch.isfinite(y).all() and torch.isfinite(lad).all()):
                 out["fails"].append(dict(case, clause="in_domain_nonfinite", detail="%s on in-domain input %s (%s, %s) returns non-finite values %s / %s" % (name, repr(stored), cls, dtn, y.view(-1)[:3].tolist(), lad.tolist()[:2])))
     return out
@@ -165,7 +174,7 @@ def large_bounds():
 def main(run, replay=None):
     run.rule = (
         "cases = spline lattice points (in-domain, on the end points, outside) of every parameter set in both directions, "
-        "scalar-domain states (transform x input class x batch position) in float32 and float64, and large tail bounds; "
+        "scalar-domain states (transform x input class x batch position x train/eval mode x direct / composite / inverse-wrapper call) in float32 and float64, and large tail bounds; "
         "non-trivial = distinct spline parameter sets and scalar states that probe a boundary class"
     )
     if replay:
@@ -179,7 +188,7 @@ def main(run, replay=None):
                     run.violation({"kind": "large_bound", "clause": f["clause"]}, "replayed: " + f["detail"], c)
             return
         res = T.run_tlc("Scalar", T.cfg(), dump=True, coverage=False, workers=2)
-        sts = [s for s in parse_dump(res.dump) if str(s["tr"]["name"]) == c["transform"] and str(s["cls"]) == c["cls"] and int(s["batch"]) == c["batch"] and int(s["pos"]) == c["pos"]]
+        sts = [s for s in parse_dump(res.dump) if str(s["tr"]["name"]) == c["transform"] and str(s["cls"]) == c["cls"] and int(s["batch"]) == c["batch"] and int(s["pos"]) == c["pos"] and str(s["mode"]) == c.get("mode", "train") and str(s["via"]) == c.get("via", "direct")]
         for f in scalar_task(sts)["fails"]:
             if f["dtype"] == c["dtype"]:
                 run.violation({"kind": "scalar", "clause": f["clause"]}, "replayed: " + f["detail"], c)
@@ -199,11 +208,11 @@ def main(run, replay=None):
     fails += lf
     for s in states:
         if str(s["cls"]) != "inside":
-            run.nontrivial.add((str(s["tr"]["name"]), str(s["cls"]), int(s["batch"]), int(s["pos"])))
+            run.nontrivial.add((str(s["tr"]["name"]), str(s["cls"]), int(s["batch"]), int(s["pos"]), str(s["mode"]), str(s["via"])))
     run.sample({"scalar_state": {"transform": "Tanh.inverse", "class": "at_hi", "specified": "InputOutsideDomain (open interval)"}})
     seen = set()
     for f in fails:
-        key = (f["kind"], f.get("transform"), f.get("family"), f.get("bound"), f.get("cls"), f["clause"], f["dtype"])
+        key = (f["kind"], f.get("transform"), f.get("family"), f.get("bound"), f.get("cls"), f["clause"], f["dtype"], f.get("mode"), f.get("via"))
         if key in seen:
             continue
         seen.add(key)
